@@ -1,7 +1,9 @@
 //@ include prelude/header.rs
 //@ unit U01 handlers/hunk.rs: handle_hunk_line (C01 once/in-order/text, C11 lag, OD, BufInv)
 verus! {
+//@ set CONFIG_EXTRA ,inspect_raw_lines,git_minus_style,git_plus_style
 //@ include prelude/sm_env.rs
+//@ include prelude/line_state.rs
 
 
 impl DiffType {
@@ -32,7 +34,7 @@ impl StateMachine<'_> {
     //@ fn src/handlers/hunk.rs StateMachine::handle_hunk_line spec=hunk.handle_hunk_line
     //@before? <<<if let State::HunkHeader(_, parsed_hunk_header, line, raw_line) = &self.state.clone()>>>| assert(/* @C01,C02,C11:hhl.order.step */ all_lines(&self.painter) =~= all_lines(&old(self).painter));
     //@before <<<self.state = match new_line_state(>>>| assert(/* @C01,C02,C11:hhl.order.step */ all_lines(&self.painter) =~= all_lines(&old(self).painter)); let ghost mid = all_lines(&self.painter);
-    //@before <<<let n_parents = diff_type.n_parents(); let line = prepare(&self.line, n_parents, self.config); let state = HunkMinus(diff_type, raw_line);>>>| assert(/* @C01,C02,C11:hhl.order.step */ all_lines(&self.painter) =~= mid); assert(self.painter.plus_lines@.len() == 0);
+    //@before#1/2 <<<let n_parents = diff_type.n_parents(); let line = prepare(&self.line, n_parents, self.config);>>>| assert(/* @C01,C02,C11:hhl.order.step */ all_lines(&self.painter) =~= mid); assert(self.painter.plus_lines@.len() == 0);
     //@after <<<self.painter.minus_lines.push((line, state.clone()));>>>| assert(/* @C01,C02,C11:hhl.order.step */ all_lines(&self.painter) =~= mid.push(self.painter.minus_lines@.last().0@));
     //@after <<<self.painter.plus_lines.push((line, state.clone()));>>>| assert(/* @C01,C02,C11:hhl.order.step */ all_lines(&self.painter) =~= mid.push(self.painter.plus_lines@.last().0@));
     //@before <<<let n_parents = if is_word_diff()>>>| assert(/* @C01,C02,C11:hhl.order.step */ all_lines(&self.painter) =~= mid); assert(pending(&self.painter) =~= Seq::<Seq<char>>::empty());
